@@ -94,6 +94,47 @@ def inputs(rep, t: str, rng: random.Random, per_space: int) -> List[Tuple[str, s
         if lay["node"] in ("deco", "decosp", "decoparen", "decocall", "deco2", "cls"):
             lay["pre"] = "absent"
         out.append((f"geometry:{len(out)}", c13.render(lay)[0], {}))
+    # BoolAlg.tla conditions and Ranges.tla comprehensions, inside C17's program templates, over a box of values
+    import c17
+    ops = ["<", "<=", ">", ">=", "==", "!="]
+
+    def term():
+        return {"v": rng.choice(["x", "y"])} if rng.random() < 0.6 else {"c": rng.choice([0, 1, 2])}
+
+    def atom17():
+        l, r = term(), term()
+        if "c" in l and "c" in r:
+            l = {"v": "x"}
+        return {"k": "cmp", "l": l, "op": rng.choice(ops), "r": r}
+
+    def chain17():
+        return {"k": "chain", "t1": {"c": rng.choice([0, 1])}, "o1": rng.choice(ops[:4]), "t2": {"v": rng.choice(["x", "y"])},
+                "o2": rng.choice(ops[:4]), "t3": {"c": rng.choice([1, 2, 3])}}
+
+    def formula():
+        r = rng.random()
+        if r < 0.25:
+            return chain17()
+        if r < 0.35:
+            return {"k": "not", "a": chain17()}
+        if r < 0.5:
+            return {"k": "not", "a": atom17()}
+        if r < 0.75:
+            return {"k": rng.choice(["and", "or"]), "args": [atom17(), rng.choice([atom17, chain17])()]}
+        return atom17()
+    for _ in range(per_space):
+        tname = rng.choice(list(c17.TEMPLATES))
+        body = c17.TEMPLATES[tname][0].replace("{E}", c17.render(formula()))
+        prog = "for x in range(-1, 4):\n    for y in (0, 2):\n" + "".join("        " + ln + "\n" for ln in body.splitlines()) + "        print(x, y, r)\n"
+        if tname == "return":
+            prog = body.replace("r = g(x, y)\n", "") + "for x in range(-1, 4):\n    for y in (0, 2):\n        print(x, y, g(x, y))\n"
+        out.append((f"boolalg:{tname}:{len(out)}", prog, {}))
+    for _ in range(per_space // 2):
+        parts = [f"x {rng.choice(ops)} {rng.choice([0, 1, 3, 7])}" for _ in range(3)]
+        cond = rng.choice([f"{parts[0]} and {parts[1]}", f"{parts[0]} or {parts[1]}", f"{parts[0]} and ({parts[1]} or {parts[2]})",
+                           f"{parts[0]} or {parts[1]} and {parts[2]}", parts[0]])
+        a, b = rng.choice([-1, 0, 2]), rng.choice([3, 4, 10])
+        out.append((f"ranges:{len(out)}", f"r = [x for x in range({a}, {b}) if {cond}]\nprint(r)\nprint(sum(range({a}, {b})))\n", {}))
     # Imports.tla clients (without their tree: unresolvable imports are part of the input space of a formatter)
     import c18
     for _ in range(per_space // 2):
